@@ -7,7 +7,7 @@
    permutation, each time it is asked: [perm_oracle]).  Since the repair of
    F-C19-1/1b/2 the code sorts those keys: what Go's randomised iteration delivers
    ([pi]) is sorted before use, the implementation is [resolve (sorting pi) P]
-   (= resolve_impl pi P).  [names_ok P]: function names are not empty (the parser).  [final_equiv F F']: two results have the same type for every variable
+   (= resolve_sorting pi P).  [names_ok P]: function names are not empty (the parser).  [final_equiv F F']: two results have the same type for every variable
    and parameter, the same global indexes and the same local indexes;
    [lookup_final F fn v] is ResolvedProgram.LookupVar (scope, type, index) on a
    result - with func_info (LookupFunc, which does not depend on the run) all the
@@ -17,7 +17,7 @@
    Gen/ProgramWrites.v: the alias analysis of the repository source (translator/gen_c19.go). *)
 From Verif Require Import Lib.Base Model.Resolver Model.Determinism Proofs.Resolver Proofs.ResolverExact
   Proofs.ResolverFlat Proofs.ResolverSound Proofs.DeterminismSort Proofs.DeterminismDom Proofs.DeterminismPerm
-  Proofs.Determinism Proofs.DeterminismSorted Proofs.DeterminismWitness Proofs.DeterminismTables Proofs.ResolverCutoff
+  Proofs.ResolverLoop Proofs.Determinism Proofs.DeterminismSorted Proofs.DeterminismWitness Proofs.DeterminismTables Proofs.ResolverCutoff
   Gen.ProgramWrites.
 From Coq Require Import Permutation String.
 
@@ -28,26 +28,26 @@ From Coq Require Import Permutation String.
    (Leibniz equality of the whole result; no guard, not even names_ok). *)
 Theorem C19_parse_deterministic : forall (pi pi' : oracle) (P : program),
   perm_oracle pi -> perm_oracle pi' -> resolve (sorting pi) P = resolve (sorting pi') P.
-Proof. exact (parse_deterministic cutoff). Qed.
+Proof. exact impl_parse_deterministic. Qed.
 Print Assumptions C19_parse_deterministic.
 
 Definition C19_full_statement : Prop :=
   forall pi pi' P, perm_oracle pi -> perm_oracle pi' ->
-    same_result (resolve_impl pi P) (resolve_impl pi' P).
+    same_result (resolve_sorting pi P) (resolve_sorting pi' P).
 
 Theorem C19_full_statement_holds : C19_full_statement.
 Proof.
-  intros pi pi' P Hpi Hpi'. unfold resolve_impl, resolve.
-  rewrite (parse_deterministic cutoff pi pi' P Hpi Hpi'). apply same_result_refl.
+  intros pi pi' P Hpi Hpi'. unfold resolve_sorting.
+  rewrite (impl_parse_deterministic pi pi' P Hpi Hpi'). apply same_result_refl.
 Qed.
 Print Assumptions C19_full_statement_holds.
 
 (* the implementation is C16's model under the oracle "sorted": a permutation oracle,
-   so every theorem of C16 (sound, complete, exact up to the cut-off, no panic) is a
+   so every theorem of C16 (sound, complete, exact, no panic, never "too many iterations") is a
    theorem about the implementation; and it is the run the model runner computes *)
 Theorem C19_impl_is_instance : forall (pi : oracle) (P : program),
-  perm_oracle pi -> perm_oracle (sorting pi) /\ resolve (sorting pi) P = resolve sort_oracle P.
-Proof. exact (fun pi P Hpi => conj (sorting_perm pi Hpi) (impl_is_sorted_order cutoff pi P Hpi)). Qed.
+  perm_oracle pi -> perm_oracle (sorting pi) /\ resolve (sorting pi) P = resolve name_order_oracle P.
+Proof. exact (fun pi P Hpi => conj (sorting_perm pi Hpi) (impl_is_name_order pi P Hpi)). Qed.
 Print Assumptions C19_impl_is_instance.
 
 (* ---- what holds for ANY order of the walk (also for the code before the repair, and
@@ -62,7 +62,7 @@ Print Assumptions C19_impl_is_instance.
 Theorem C19_accepted_deterministic : forall (pi pi' : oracle) (P : program) (F F' : final),
   perm_oracle pi -> perm_oracle pi' -> names_ok P ->
   resolve pi P = ROk F -> resolve pi' P = ROk F' -> final_equiv F F'.
-Proof. exact (accepted_deterministic cutoff). Qed.
+Proof. exact impl_accepted_deterministic. Qed.
 Print Assumptions C19_accepted_deterministic.
 
 (* ... hence the same answer to every LookupVar ... *)
@@ -91,51 +91,49 @@ Print Assumptions C19_sorted_names_canonical.
    apply to everything the resolver accepts. *)
 Theorem C19_accepted_wf : forall (pi : oracle) (P : program) (F : final),
   perm_oracle pi -> names_ok P -> resolve pi P = ROk F -> wf0 P = true.
-Proof. exact (accepted_wf0 cutoff). Qed.
+Proof. exact impl_accepted_wf0. Qed.
 Print Assumptions C19_accepted_wf.
 
-(* VERDICT under an arbitrary walk order (the guard excludes the 100-pass cut-off: there
-   the order decides, see C19_ex_walk_order_decides_verdict).
-   For EVERY program - valid or not - acceptance does not depend on the map order. *)
+(* VERDICT under an arbitrary walk order - no guard since C16's repair of the pass limit
+   (C16_never_gives_up: the resolver never answers "too many iterations").
+   For EVERY program - valid or not - acceptance does not depend on the order of the walk. *)
 Theorem C19_verdict_any_order : forall (pi pi' : oracle) (P : program),
   perm_oracle pi -> perm_oracle pi' -> names_ok P ->
-  resolve pi P <> RErr ETooManyIter -> resolve pi' P <> RErr ETooManyIter ->
   ((exists F, resolve pi P = ROk F) <-> (exists F', resolve pi' P = ROk F')).
-Proof. exact (verdict_deterministic_partial cutoff). Qed.
+Proof. exact impl_verdict_any_order. Qed.
 Print Assumptions C19_verdict_any_order.
 
 (* ENUMERATION.  Whatever the map order, the outcome is one of the outcomes of
    resolve_order over the permutations of the function list: the quantification
    over oracles reduces to a finite enumeration (what modelrun computes). *)
 Theorem C19_outcome_enumerated : forall (pi : oracle) (P : program),
-  perm_oracle pi -> names_ok P -> In (resolve pi P) (order_outcomes cutoff P).
-Proof. exact (outcome_enumerated cutoff). Qed.
+  perm_oracle pi -> names_ok P -> In (resolve pi P) (order_outcomes (pass_fuel P) P).
+Proof. exact impl_outcome_enumerated. Qed.
 Print Assumptions C19_outcome_enumerated.
 
 (* ERROR MESSAGE under an arbitrary walk order (guard = the error set over all orders of
    the functions is a singleton; otherwise the order decides, see
    C19_ex_walk_order_decides_error). *)
 Theorem C19_error_any_order : forall (pi pi' : oracle) (P : program) (e e' : rerr),
-  perm_oracle pi -> perm_oracle pi' -> names_ok P -> one_error cutoff P = true ->
+  perm_oracle pi -> perm_oracle pi' -> names_ok P -> one_error (pass_fuel P) P = true ->
   resolve pi P = RErr e -> resolve pi' P = RErr e' -> e = e'.
-Proof. exact (error_deterministic_partial cutoff). Qed.
+Proof. exact impl_error_any_order. Qed.
 Print Assumptions C19_error_any_order.
 
 (* a program with at most one function: the whole result is determined *)
 Theorem C19_single_function_deterministic : forall (pi pi' : oracle) (P : program),
   perm_oracle pi -> perm_oracle pi' -> names_ok P -> (List.length (p_funcs P) <= 1)%nat ->
   resolve pi P = resolve pi' P.
-Proof. exact (single_function_deterministic cutoff). Qed.
+Proof. exact impl_single_function. Qed.
 Print Assumptions C19_single_function_deterministic.
 
-(* THE WHOLE RESULT under arbitrary walk orders (both guards): same verdict, same error,
-   same types and indexes *)
+(* THE WHOLE RESULT under arbitrary walk orders (one guard left: the error set is a
+   singleton): same verdict, same error, same types and indexes *)
 Theorem C19_result_any_order : forall (pi pi' : oracle) (P : program),
   perm_oracle pi -> perm_oracle pi' -> names_ok P ->
-  resolve pi P <> RErr ETooManyIter -> resolve pi' P <> RErr ETooManyIter ->
-  one_error cutoff P = true ->
+  one_error (pass_fuel P) P = true ->
   same_result (resolve pi P) (resolve pi' P).
-Proof. exact (parse_deterministic_partial cutoff). Qed.
+Proof. exact impl_result_any_order. Qed.
 Print Assumptions C19_result_any_order.
 
 (* ---- why the sort is load-bearing: the order of the walk IS observable ---- *)
@@ -146,18 +144,8 @@ Example C19_ex_walk_order_decides_error :
   names_ok two_bad /\
   resolve (front_oracle [102]) two_bad = RErr (EUse TArray n_a TScalar) /\
   resolve (front_oracle [103]) two_bad = RErr (EUse TArray n_b TScalar) /\
-  resolve sort_oracle two_bad = RErr (EUse TArray n_a TScalar).
+  resolve name_order_oracle two_bad = RErr (EUse TArray n_a TScalar).
 Proof. exact (conj two_bad_names (conj two_bad_f_first (conj two_bad_g_first two_bad_sorted))). Qed.
-
-(* a ring of 101 functions forwarding a parameter, meeting the precondition: accepted when
-   topoSort starts at f001, "too many iterations" when it starts at the top level (the
-   former F-C19-2: the verdict depended on the map order); sorted: the top level first *)
-Example C19_ex_walk_order_decides_verdict :
-  wf ring = true /\
-  is_ok (resolve (front_oracle (fN 1)) ring) = true /\
-  resolve (front_oracle []) ring = RErr ETooManyIter /\
-  resolve sort_oracle ring = RErr ETooManyIter.
-Proof. exact (conj ring_wf (conj ring_accepted (conj ring_rejected ring_sorted))). Qed.
 
 (* DISASSEMBLY NAMES - full.  compiler.Program.nativeFuncNames (what Disassemble prints
    after CallNative) is filled from a map iteration over the functions, entering the
@@ -236,14 +224,14 @@ Example C19_ex_oracles : perm_oracle (front_oracle [102]) /\ perm_oracle (seed_o
 Proof. exact (conj (front_oracle_perm _) (seed_oracle_perm 5)). Qed.
 
 (* the guards of the partial theorems hold for an accepted program with two functions ... *)
-Example C19_ex_accepted : names_ok good_prog /\ one_error cutoff good_prog = true /\
+Example C19_ex_accepted : names_ok good_prog /\ one_error (pass_fuel good_prog) good_prog = true /\
   is_ok (resolve (front_oracle [102]) good_prog) = true /\ is_ok (resolve (front_oracle [103]) good_prog) = true.
 Proof. exact good_prog_accepted. Qed.
 
 (* ... and for a rejected one with a single erroneous function; the guard excludes the witness *)
-Example C19_ex_one_error : names_ok one_bad /\ one_error cutoff one_bad = true /\
+Example C19_ex_one_error : names_ok one_bad /\ one_error (pass_fuel one_bad) one_bad = true /\
   resolve (front_oracle [103]) one_bad = RErr (EUse TArray n_a TScalar).
 Proof. exact one_bad_guard. Qed.
 
-Example C19_ex_guard_excludes_witness : one_error cutoff two_bad = false.
+Example C19_ex_guard_excludes_witness : one_error (pass_fuel two_bad) two_bad = false.
 Proof. exact two_bad_guard. Qed.
